@@ -26,12 +26,14 @@ use specs::*;
 use specs::bv::*;
 use specs::bv2::*;
 use anyhow::Result;
+use core::marker::PhantomData;
+use std::collections::HashMap;
 type DatagramPacket = (BytesMut, Address);
 global size_of usize == 8;   // ASSUMPTION: 64-bit target
 
 pub assume_specification[ u8::overflowing_add ](a: u8, b: u8) -> (r: (u8, bool))
     ensures r.0 as int == (a + b) % 256, r.1 == (a + b >= 256);
-broadcast use axiom_seal_len, axiom_open_unique, lemma_len0_empty, axiom_v4_len, axiom_v6_len, axiom_string_utf8, axiom_blake3_kdf_len, axiom_blake3_hash_len, axiom_hkdf_len, lemma_shr6, lemma_and127, lemma_and63;
+broadcast use axiom_strb_utf8, axiom_sbytes_utf8, axiom_seal_len, axiom_open_unique, lemma_len0_empty, axiom_v4_len, axiom_v6_len, axiom_string_utf8, axiom_blake3_kdf_len, axiom_blake3_hash_len, axiom_hkdf_len, lemma_shr6, lemma_and127, lemma_and63;
 
 //@include ../common_cipher.rs
 //@include ../parts/addr.rs
